@@ -16,6 +16,11 @@ import zoo
 
 def book_ok(labels, nW, wsc, sc, presented, check_counters=True, allow_minus1=False):
     """the invariant of props/C05.v evaluated on an implementation snapshot; returns None or a reason"""
+    if isinstance(labels, np.ndarray):
+        # a label is a category index: W[label], np.bincount(labels_) must work
+        if labels.size and not np.issubdtype(labels.dtype, np.integer):
+            return f"labels_ has dtype {labels.dtype}: its entries are no category indices"
+        labels = [int(v) for v in labels]
     if len(labels) != presented:
         return f"len(labels_)={len(labels)} but {presented} samples presented since the last fit"
     k = 0
@@ -65,7 +70,7 @@ def oracle(k, ops):
                 presented += len(X)
         except Exception:
             return fails
-        why = book_ok([int(v) for v in est.labels_], len(est.W), est.weight_sample_counter_, est.sample_counter_, presented)
+        why = book_ok(np.asarray(est.labels_), len(est.W), est.weight_sample_counter_, est.sample_counter_, presented)
         if why is None and est.n_clusters != len(est.W):
             why = "n_clusters != number of stored categories"
         if why:
@@ -97,7 +102,7 @@ def topo_empty_bucket(rng, n):
                 for lo, hi in ((0, 1), (1, 3)):
                     est.partial_fit(X[lo:hi])
                     presented += len(X[lo:hi])
-                    why = book_ok([int(v) for v in est.labels_], len(est.W), [], est.sample_counter_, presented,
+                    why = book_ok(np.asarray(est.labels_), len(est.W), [], est.sample_counter_, presented,
                                   check_counters=False, allow_minus1=True)
                     if why:
                         fails.append({"signature": "TopoART.partial_fit/book", "text": "TopoART after a round that removed every category: " + why,
